@@ -451,6 +451,17 @@ class C44(Check):
                 res.fail(b, d, dict(case, _bucket=b))
         hyp.survey(st.tuples(binlab.pe_history(max_ops=10, writes=False, align_choices=[0, 1, 2, 2, 2, 3, 4, 5, 6, 6]), st.booleans(), st.booleans()), n_pe, seed, one_pe)
 
+        # deterministic stratum: one library with 255..300 imports next to a small one, both descriptor orders
+        # (stub areas of neighbouring libraries are 0x1000 bytes apart, 0x10 per stub)
+        if shard < 4:
+            n = (255, 256, 257, 300)[shard]
+            for order in (0, 1):
+                descs = [[0, list(range(-1, -n - 1, -1)), False], [1, [1, 2, 3], False]]
+                if order:
+                    descs = descs[::-1]
+                one_pe(([["init", 0, 0, 0, 0], ["sec", 1, 0x200, 0, 0, 5, 0], ["imp", descs, 0, 3]], True, True))
+                res.counters["pe:many-imports"] += 1
+
         # ELF
         linked = linked_recipes()
         nrec = len(binlab.elf_recipes())
